@@ -105,4 +105,33 @@ def programs(tier):
                                   println(show_int(Call("fa", Var("a")))), println(Call("bool_to_string", Call("fb", Var("b")))), println(show_int(Call("fc", Var("c")))),
                                   println(show_int(Field(Var("s"), "q")))], Unit))
     out.append({"prog": p, "family": "c19", "ident": "c19:user-struct-named-like-tuple-helper", "expect": "accept"})
+    # ---- the same name declared in TWO packages (each kind of entity): both must stay distinct in the one Go file they end up in
+    lib = ("package Lib\n\nenum Color { Red, Green(int32) }\nstruct Item { v: int32 }\ntrait Show { fn show(Self) -> string; }\n"
+           "impl Show for Item { fn show(self: Item) -> string { \"lib-item \" + int32_to_string(self.v) } }\nimpl Show for int32 { fn show(self: int32) -> string { \"lib-int\" } }\n"
+           "fn pick(n: int32) -> Color { if n > 0 { Green(n) } else { Red } }\nfn name(c: Color) -> string { match c { Red => \"lib-red\", Green(n) => \"lib-green \" + int32_to_string(n) } }\n"
+           "fn helper(x: int32) -> int32 { x + 100 }\nfn mk(v: int32) -> Item { Item { v: v } }\nfn wrap[T](x: T) -> Opt[T] { Opt::Som(x) }\nenum Opt[T] { Non, Som(T) }\n"
+           "fn lshow(i: Item) -> string { Show::show(i) }\n")
+    head = "package Main\nimport Lib\n\n"
+    cross = {
+        "variant": ("enum Light { Red, Off }\nfn show(l: Light) -> string { match l { Red => \"main-red\", Off => \"off\" } }\n",
+                    "    let _ = string_println(show(Red) + show(Off) + Lib::name(Lib::pick(0)) + Lib::name(Lib::Color::Green(2)));\n", ["main-redofflib-redlib-green 2"]),
+        "variant-with-payload": ("enum Light { Green(string), Off }\nfn show(l: Light) -> string { match l { Green(s) => \"main-green \" + s, Off => \"off\" } }\n",
+                                 "    let _ = string_println(show(Green(\"g\")) + Lib::name(Lib::pick(3)));\n", ["main-green glib-green 3"]),
+        "enum-type": ("enum Color { Blue, Red }\nfn show(c: Color) -> string { match c { Blue => \"main-blue\", Red => \"main-red\" } }\n",
+                      "    let _ = string_println(show(Blue) + show(Red) + Lib::name(Lib::pick(0)));\n", ["main-bluemain-redlib-red"]),
+        "struct-type": ("struct Item { v: string }\nfn show(i: Item) -> string { \"main-item \" + i.v }\n",
+                        "    let _ = string_println(show(Item { v: \"s\" }) + Lib::lshow(Lib::mk(4)));\n", ["main-item slib-item 4"]),
+        "function": ("fn helper(x: int32) -> int32 { x + 1 }\nfn name(x: int32) -> string { \"main-name\" }\n",
+                     "    let _ = string_println(int32_to_string(helper(1)) + int32_to_string(Lib::helper(1)) + name(0) + Lib::name(Lib::pick(0)));\n", ["2101main-namelib-red"]),
+        "trait-and-method": ("trait Show { fn show(Self) -> string; }\nimpl Show for int32 { fn show(self: int32) -> string { \"main-int\" } }\nimpl Show for bool { fn show(self: bool) -> string { \"main-bool\" } }\n",
+                             "    let _ = string_println(Show::show(1) + Show::show(true) + Lib::Show::show(1) + Lib::lshow(Lib::mk(5)));\n", ["main-intmain-boollib-intlib-item 5"]),
+        "generic-enum-at-both-packages-types": ("struct Item { v: string }\nfn unwrap_i(o: Lib::Opt[Item]) -> string { match o { Lib::Opt::Som(i) => i.v, Lib::Opt::Non => \"none\" } }\n"
+                                                "fn unwrap_l(o: Lib::Opt[Lib::Item]) -> int32 { match o { Lib::Opt::Som(i) => i.v, Lib::Opt::Non => 0 } }\n",
+                                                "    let _ = string_println(unwrap_i(Lib::wrap(Item { v: \"m\" })) + int32_to_string(unwrap_l(Lib::wrap(Lib::mk(6)))) + unwrap_i(Lib::Opt::Non));\n", ["m6none"]),
+    }
+    from gast import TextProgram
+    for kind, (decls_, stmt, lines) in cross.items():
+        text = head + decls_ + "fn main() -> unit {\n" + stmt + "    ()\n}\n"
+        out.append({"prog": TextProgram("c19_cross_" + kind.replace("-", "_"), text, lines), "family": "c19", "ident": f"c19:same-name-in-two-packages:{kind}", "expect": "accept",
+                    "extra_files": {"Lib/lib.gom": lib}})
     return out
